@@ -713,6 +713,170 @@ theorem embH_idx_name (hs : List Spec.Name) (e : Expr) (nm : Lscr.Name) (n : Nod
     cases k <;> (obtain ⟨p, rfl⟩ := h; rfl)
   | _ => simp [idxName] at hi
 
+/-! #### `the number of <chunk>s of e` (5c 01) and `the last <chunk> of e` (5c 00, k ≥ 12) -/
+
+theorem theTbl_strThe (t : Tbl) (k : Nat) (v : Leaf × List (Nat × String) × String) (h : theTbl t = some v) : strThe t k = none := by
+  cases t <;> simp [theTbl] at h <;> rfl
+
+theorem opTypes_ok (r : Nat) (ty : Str) (h : chunkTy r = some ty) : listGet Gen.PropTables.operationTypes (r : Int) = .ok ty := by
+  unfold chunkTy ChunkKind.ofRank at h
+  split at h
+  · rename_i h1; subst h1; simp at h; subst h; rfl
+  · split at h
+    · rename_i _ h1; subst h1; simp at h; subst h; rfl
+    · split at h
+      · rename_i _ _ h1; subst h1; simp at h; subst h; rfl
+      · split at h
+        · rename_i _ _ _ h1; subst h1; simp at h; subst h; rfl
+        · simp at h
+
+theorem exec_strthe (ctx : Lscr.Ctx) (t : Tbl) (k : Nat) (op : Str) (r : Nat) (ty : Str) (hs : strThe t k = some (op, r))
+    (hty : chunkTy r = some ty) (a : Int) (st : PState) (p : Int) (x : Node) (rest : List Node)
+    (hst : st.stack = .leaf .const (.s (natStr k)) p :: x :: rest) :
+    execI ctx (.op2 0x5c t.code) a st = .ok { st with stack := .unaryStr op a (some ty) x :: rest } := by
+  have hkb : ("bi" = "bi" ∨ "bi" = "tri") := Or.inl rfl
+  have h1 : (Node.leaf .const (.s (natStr k)) p).name = .ok (.s (natStr k)) := rfl
+  cases t with
+  | numChunks =>
+    simp only [strThe, Option.some.injEq, Prod.mk.injEq] at hs
+    obtain ⟨rfl, rfl⟩ := hs
+    have hb : Opcodes.biOpcodes.lookup 23553 = some { cls := "NumberOfElementsOpcode", impl := "NumberOfElementsOpcode", nbytes := 2, kind := "bi", attrs := [] } := rfl
+    simp only [execI, Tbl.code, bi_lookup_5c, hkb, if_true, Nat.reduceMul, Nat.reduceAdd, hb, true_or]
+    have hp : process ctx { cls := "NumberOfElementsOpcode", impl := "NumberOfElementsOpcode", nbytes := 2, kind := "bi", attrs := [] } 0 0 a st
+        = process0 ctx { cls := "NumberOfElementsOpcode", impl := "NumberOfElementsOpcode", nbytes := 2, kind := "bi", attrs := [] } a st := by
+      unfold process
+      rw [if_neg (by decide), if_neg (by decide)]
+    rw [hp]
+    unfold process0
+    simp only [popInt, PState.pop, hst, h1, toInt_natStr, opTypes_ok k ty hty, Bind.bind, Except.bind, pure, Except.pure, PState.push]
+  | special =>
+    simp only [strThe] at hs
+    split at hs
+    · rename_i hk
+      simp only [Option.some.injEq, Prod.mk.injEq] at hs
+      obtain ⟨rfl, rfl⟩ := hs
+      have hb : Opcodes.biOpcodes.lookup 23552 = some { cls := "SpecialPropertiesOpcode", impl := "SpecialPropertiesOpcode", nbytes := 2, kind := "bi", attrs := [] } := rfl
+      simp only [execI, Tbl.code, bi_lookup_5c, hkb, if_true, Nat.reduceMul, Nat.reduceAdd, hb, true_or]
+      have hp : process ctx { cls := "SpecialPropertiesOpcode", impl := "SpecialPropertiesOpcode", nbytes := 2, kind := "bi", attrs := [] } 0 0 a st
+          = process0 ctx { cls := "SpecialPropertiesOpcode", impl := "SpecialPropertiesOpcode", nbytes := 2, kind := "bi", attrs := [] } a st := by
+        unfold process
+        rw [if_neg (by decide), if_neg (by decide)]
+      rw [hp]
+      unfold process0
+      have n6 : ¬ (((k : Nat) : Int) < 6) := by omega
+      have n12 : ¬ (((k : Nat) : Int) < 12) := by omega
+      have e11 : ((k : Nat) : Int) - 11 = ((k - 11 : Nat) : Int) := by omega
+      simp only [specialProps, popInt, PState.pop, hst, h1, toInt_natStr, n6, n12, if_false, e11, opTypes_ok (k - 11) ty hty, Bind.bind,
+        Except.bind, pure, Except.pure, PState.push]
+    · cases hs
+  | _ => simp [strThe] at hs
+
+/-! #### chunk expressions: `char a to b of d` (one slot per slice instruction, opcode 17) -/
+
+/-- the node `03` pushes -/
+def zn (p : Int) : Node := .leaf .const (.s (natStr 0)) p
+
+theorem addStr_zero (op e : Node) (p : Int) (kind : Str) (idx : Int) : addStrOperation op (zn p) e kind idx = .ok op := by
+  simp [addStrOperation, zn, Node.name, natStr_zero, Bind.bind, Except.bind, pure, Except.pure]
+
+theorem addStr_some (op s e : Node) (sn en : Lscr.Name) (hs : s.name = .ok sn) (hsn : sn ≠ .s (S "0")) (he : e.name = .ok en)
+    (kind : Str) (idx : Int) :
+    addStrOperation op s e kind idx = .ok (.strOp kind idx s (if en ≠ .s (S "0") then e else .none) op) := by
+  simp only [addStrOperation, hs, he, Bind.bind, Except.bind, hsn, ne_eq, not_false_eq_true, if_true, pure, Except.pure]
+
+/-- the eight slot nodes below the string, for one filled slot -/
+def slotStack (k : ChunkKind) (s e : Node) (p0 p1 p2 p3 p4 p5 : Int) : List Node :=
+  match k with
+  | .char => [zn p0, zn p1, zn p2, zn p3, zn p4, zn p5, e, s]
+  | .word => [zn p0, zn p1, zn p2, zn p3, e, s, zn p4, zn p5]
+  | .item => [zn p0, zn p1, e, s, zn p2, zn p3, zn p4, zn p5]
+  | .line => [e, s, zn p0, zn p1, zn p2, zn p3, zn p4, zn p5]
+
+theorem exec_strop (ctx : Lscr.Ctx) (k : ChunkKind) (s e x : Node) (sn en : Lscr.Name) (hs : s.name = .ok sn) (hsn : sn ≠ .s (S "0"))
+    (he : e.name = .ok en) (p0 p1 p2 p3 p4 p5 : Int) (a : Int) (st : PState) (rest : List Node)
+    (hst : st.stack = x :: (slotStack k s e p0 p1 p2 p3 p4 p5 ++ rest)) :
+    execI ctx (.op1 0x17) a st = .ok { st with stack := .strOp k.tag.toList a s (if en ≠ .s (S "0") then e else .none) x :: rest } := by
+  have hl : Opcodes.opcodes.lookup 0x17 = some { cls := "StringOperationOpcode", impl := "StringOperationOpcode", nbytes := 1, kind := "plain", attrs := [] } := rfl
+  simp only [execI, hl]
+  unfold process0
+  cases k <;>
+    simp only [slotStack, List.cons_append, List.nil_append] at hst <;>
+    simp only [addModifiers, PState.pop, hst, addStr_zero, addStr_some _ s e sn en hs hsn he, Bind.bind, Except.bind, pure, Except.pure,
+      PState.push] <;> rfl
+
+theorem natStr_eq_zero (k : Nat) (h : natStr k = S "0") : k = 0 := by
+  have h1 := pyIntOfStr_natStr k
+  have h2 := pyIntOfStr_natStr 0
+  rw [h, ← natStr_zero, h2] at h1
+  simpa using h1.symm
+
+theorem idOk_ne_zero (v : Spec.Name) (h : idOk v = true) : v ≠ S "0" := by
+  intro e; subst e
+  have : idOk (S "0") = false := by decide
+  rw [this] at h; cases h
+
+/-- the `.name` of the image of an expression: defined, and `"0"` exactly for the literal 0 (the model's test for an absent slot) -/
+theorem embH_name_zero (hs : List Spec.Name) (e : Expr) (n : Node) (hf : FragE e = true) (h : EmbH hs e n) :
+    ∃ nm, n.name = .ok nm ∧ (nm = .s (S "0") ↔ isZero e = true) := by
+  have nz : ∀ v : Str, v ≠ S "0" → ((Lscr.Name.s v = .s (S "0")) ↔ (false = true)) := by
+    intro v hv; constructor
+    · intro e; exact absurd (Lscr.Name.s.inj e) hv
+    · intro e; cases e
+  cases e with
+  | int k =>
+    obtain ⟨p, rfl⟩ := h
+    refine ⟨_, rfl, ?_⟩
+    cases k with
+    | zero => simp [isZero, natStr_zero]
+    | succ m =>
+      simp only [isZero]
+      exact nz _ (fun e => by have := natStr_eq_zero _ e; omega)
+  | str v => obtain ⟨p, rfl⟩ := h; exact ⟨_, rfl, by simpa [isZero] using nz _ (by simp [escapeString, S])⟩
+  | sym v => obtain ⟨p, rfl⟩ := h; simp only [FragE] at hf; exact ⟨_, rfl, by simpa [isZero] using nz _ (idOk_ne_zero v hf)⟩
+  | var k v =>
+    simp only [FragE] at hf
+    cases k <;> (obtain ⟨p, rfl⟩ := h; exact ⟨_, rfl, by simpa [isZero] using nz _ (idOk_ne_zero v hf)⟩)
+  | un op a => obtain ⟨p, x, rfl, _⟩ := h; exact ⟨_, rfl, by cases op <;> simpa [isZero, unName] using nz _ (by decide)⟩
+  | bin op a b => obtain ⟨p, x, y, rfl, _⟩ := h; exact ⟨_, rfl, by cases op <;> simpa [isZero, binName] using nz _ (by decide)⟩
+  | field a => obtain ⟨p, x, rfl, _⟩ := h; exact ⟨_, rfl, by simpa [isZero] using nz _ (by decide)⟩
+  | call f as =>
+    obtain ⟨p, p', ops, rfl, _⟩ := h
+    simp only [FragE, Bool.and_eq_true] at hf
+    exact ⟨_, rfl, by simpa [isZero] using nz _ (idOk_ne_zero f hf.1.1.1.1)⟩
+  | list as => obtain ⟨p, p', ops, rfl, _⟩ := h; exact ⟨_, rfl, by simpa [isZero] using nz _ (by decide)⟩
+  | key v => obtain ⟨p, rfl⟩ := h; exact ⟨_, rfl, by simpa [isZero] using nz _ (by decide)⟩
+  | movie v =>
+    simp only [FragE] at hf
+    rcases h with ⟨p, rfl⟩ | ⟨p, q, o, rfl, _⟩
+    · exact ⟨_, rfl, by simpa [isZero] using nz _ (idOk_ne_zero v hf)⟩
+    · exact ⟨_, rfl, by simpa [isZero] using nz _ (by decide)⟩
+  | oprop v o => obtain ⟨p, x, rfl, _⟩ := h; exact ⟨_, rfl, by simpa [isZero] using nz _ (by decide)⟩
+  | chunk k a b d => obtain ⟨p, x, y, z, rfl, _⟩ := h; exact ⟨_, rfl, by cases k <;> simpa [isZero, ChunkKind.tag] using nz _ (by decide)⟩
+  | the t k as =>
+    cases as with
+    | nil =>
+      cases t with
+      | sys => simp only [EmbH] at h; obtain ⟨p, q, o, rfl, _⟩ := h; exact ⟨_, rfl, by simpa [isZero] using nz _ (by decide)⟩
+      | special =>
+        simp only [EmbH] at h; obtain ⟨p, rfl⟩ := h
+        simp only [FragE, decide_eq_true_eq] at hf
+        refine ⟨_, rfl, ?_⟩
+        have : k = 0 ∨ k = 1 ∨ k = 2 ∨ k = 3 ∨ k = 4 ∨ k = 5 := by omega
+        rcases this with rfl | rfl | rfl | rfl | rfl | rfl <;> simpa [isZero] using nz _ (by decide)
+      | _ => simp [FragE] at hf
+    | cons x xs =>
+      cases xs with
+      | nil =>
+        simp only [EmbH] at h
+        rcases h with ⟨p, q, cls, tb, w, nm, _, _, rfl⟩ | ⟨p, y, op, r, ty, hst, _, rfl, _⟩
+        · exact ⟨_, rfl, by simpa [isZero] using nz _ (by decide)⟩
+        · refine ⟨_, rfl, ?_⟩
+          have hop : op = S "number" ∨ op = S "last" := by
+            cases t <;> simp [strThe] at hst <;> first | exact Or.inr hst.2.1.symm | exact Or.inl hst.1.symm
+          rcases hop with rfl | rfl <;> simpa [isZero] using nz _ (by decide)
+      | cons y ys => cases t <;> simp [FragE] at hf
+  | _ => simp [FragE] at hf
+
 theorem embL_length : ∀ (as : List Expr) (ns : List Node), EmbL as ns → ns.length = as.length
   | [], ns, h => by simp only [EmbL] at h; subst h; rfl
   | e :: es, ns, h => by
@@ -759,12 +923,22 @@ theorem EmbH.toEmb (hs : List Spec.Name) : ∀ (e : Expr) (n : Node), EmbH hs e 
     | cons x xs =>
       cases xs with
       | cons y ys => cases t <;> simp [EmbH] at h
-      | nil => simp only [EmbH] at h; simp only [Emb]; exact h
+      | nil =>
+        simp only [EmbH] at h
+        simp only [Emb]
+        rcases h with h | ⟨p, y, op, r, ty, h1, h2, rfl, hy⟩
+        · exact Or.inl h
+        · exact Or.inr ⟨p, y, op, r, ty, h1, h2, rfl, EmbH.toEmb hs x y hy⟩
     | nil => cases t <;> first | (simp [EmbH] at h; done) | (simp only [EmbH] at h; simp only [Emb]; exact h)
   | .key _, _, h => by simp only [EmbH] at h; simp only [Emb]; exact h
   | .movie _, _, h => by simp only [EmbH] at h; simp only [Emb]; exact h
   | .oprop v o, _, h => by obtain ⟨p, x, rfl, hx⟩ := h; exact ⟨p, x, rfl, EmbH.toEmb hs o x hx⟩
-  | .chunk _ _ _ _, _, h => by simp [EmbH] at h
+  | .chunk k a b d, _, h => by
+    obtain ⟨p, x, y, z, rfl, ha, hb, hd⟩ := h
+    refine ⟨p, x, y, z, rfl, EmbH.toEmb hs a x ha, ?_, EmbH.toEmb hs d z hd⟩
+    rcases hb with hb | hb
+    · exact Or.inl hb
+    · exact Or.inr ⟨hb.1, EmbH.toEmb hs b y hb.2⟩
 theorem EmbLH.toEmbL (hs : List Spec.Name) : ∀ (as : List Expr) (ns : List Node), EmbLH hs as ns → EmbL as ns
   | [], _, h => h
   | e :: es, _, h => by
@@ -861,6 +1035,32 @@ theorem lowerInt_ok (n : Nat) (s0 s1 : St) (code : List Instr) (h : lowerInt n s
 theorem runIs_single (ctx : Lscr.Ctx) (a : Nat) (i : Instr) (st : PState) : runIs ctx a [i] st = execI ctx i (a : Int) st := by
   simp only [runIs]
   cases execI ctx i (a : Int) st <;> rfl
+
+/-- `n` zero pushes -/
+def zs : Nat → Nat → List Node
+  | _, 0 => []
+  | a, n + 1 => zs (a + 1) n ++ [zn (a : Int)]
+
+theorem codeSize_zeros (n : Nat) : codeSize (List.replicate n (Instr.op1 0x03)) = n := by
+  induction n with
+  | zero => rfl
+  | succ m ih => simp only [List.replicate_succ, codeSize, Instr.size, ih]; omega
+
+theorem run_zeros (ctx : Lscr.Ctx) : ∀ (n a : Nat) (st : PState),
+    runIs ctx a (List.replicate n (Instr.op1 0x03)) st = .ok { st with stack := zs a n ++ st.stack }
+  | 0, a, st => by simp [runIs, zs]
+  | n + 1, a, st => by
+    have e : List.replicate (n + 1) (Instr.op1 0x03) = [Instr.op1 0x03] ++ List.replicate n (Instr.op1 0x03) := by
+      simp [List.replicate_succ]
+    rw [e, runIs_append, runIs_single, exec_zero]
+    simp only [Except.bind]
+    have e2 : a + codeSize [Instr.op1 0x03] = a + 1 := by simp [codeSize, Instr.size]
+    rw [e2, run_zeros ctx n (a + 1)]
+    simp [zs, zn]
+
+theorem slotCode_single (k : ChunkKind) (ca cb : List Instr) :
+    slotCode [(k.rank, ca, cb)] = List.replicate (2 * (k.rank - 1)) (Instr.op1 0x03) ++ (ca ++ cb) ++ List.replicate (2 * (4 - k.rank)) (Instr.op1 0x03) := by
+  cases k <;> simp [slotCode, ChunkKind.rank, List.replicate]
 
 theorem vars_sub_left {G : List Spec.Name} {x y : List Spec.Name} (h : ∀ g ∈ x ++ y, g ∈ G) : ∀ g ∈ x, g ∈ G :=
   fun g hg => h g (List.mem_append_left _ hg)
@@ -1125,30 +1325,57 @@ theorem stack_lemma : ∀ (e : Expr), FragE e = true → ∀ (c : Spec.Ctx) (s0 
       cases xs with
       | cons y ys => cases t <;> simp [FragE] at hf
       | nil =>
-        simp only [FragE, Bool.and_eq_true] at hf
-        obtain ⟨⟨htk, hidx⟩, hfe⟩ := hf
+        simp only [FragE, Bool.and_eq_true, Bool.or_eq_true] at hf
+        obtain ⟨hor, hfe⟩ := hf
+        have hlow : ∃ ce s' ci, lowerExpr c x s0 = .ok (ce, s') ∧ lowerInt k s' = .ok (ci, s1) ∧ code = ce ++ ci ++ [.op2 0x5c t.code] := by
+          rw [lowerExpr, lowerArgs, lowerArgs] at h
+          simp only [M_bind_ok, M_pure_ok, Prod.mk.injEq] at h
+          obtain ⟨ca, s', ⟨ce, s'', he, cs, s3, ⟨rfl, rfl⟩, rfl, rfl⟩, ci, s4, hi, rfl, rfl⟩ := h
+          exact ⟨ce, _, ci, he, hi, by simp⟩
+        obtain ⟨ce, s', ci, he, hi, rfl⟩ := hlow
+        obtain ⟨hext1, hop1, hrun1⟩ := stack_lemma x hfe c s0 s' ce he
+        obtain ⟨hext2, hop2, hrun2⟩ := lowerInt_ok k s' s1 ci hi
+        have hops : ∀ i ∈ ce ++ ci ++ [Instr.op2 0x5c t.code], i.opc ≠ 153 := by
+          intro i hi
+          rcases List.mem_append.mp hi with hi | hi
+          · rcases List.mem_append.mp hi with hi | hi
+            · exact hop1 i hi
+            · exact hop2 i hi
+          · simp only [List.mem_singleton] at hi; subst hi; simp [Instr.opc]
         cases ht : theTbl t with
-        | none => rw [ht] at htk; simp at htk
+        | none =>
+          rw [ht] at hor
+          simp only [Bool.false_and, Bool.false_eq_true, false_or] at hor
+          cases hst : strThe t k with
+          | none => rw [hst] at hor; simp at hor
+          | some v =>
+            obtain ⟨op, r⟩ := v
+            rw [hst] at hor
+            simp only [false_and, false_or] at hor
+            obtain ⟨ty, hty⟩ := Option.isSome_iff_exists.mp hor
+            refine ⟨hext1.trans hext2, hops, ?_⟩
+            intro sF ctx hF hrel G hG a st hb hgv
+            obtain ⟨n, gv1, hemb, hgv1, hr1⟩ := hrun1 sF ctx (hext2.trans hF) hrel G (by simpa [Expr.vars, Expr.varsList] using hG) a st hb hgv
+            obtain ⟨i, rfl, hex⟩ := hrun2 c sF ctx hF hrel ((a + codeSize ce : Nat) : Int)
+              { st with stack := n :: st.stack, gvars := gv1 } hb
+            have hs := exec_strthe ctx t k op r ty hst hty ((a + codeSize (ce ++ [i]) : Nat) : Int)
+              { st with stack := .leaf .const (.s (natStr k)) ((a + codeSize ce : Nat) : Int) :: n :: st.stack, gvars := gv1 }
+              ((a + codeSize ce : Nat) : Int) n st.stack rfl
+            refine ⟨.unaryStr op ((a + codeSize (ce ++ [i]) : Nat) : Int) (some ty) n, gv1, ?_, hgv1, ?_⟩
+            · simp only [EmbH]; exact Or.inr ⟨_, n, op, r, ty, hst, hty, rfl, hemb⟩
+            · rw [runIs_append, runIs_append, hr1]
+              simp only [Except.bind]
+              rw [runIs_single, hex]
+              simp only [Except.bind]
+              rw [runIs_single]
+              exact hs
         | some v =>
           obtain ⟨cls, tb, w⟩ := v
-          rw [ht] at htk
-          simp only at htk
+          rw [ht, theTbl_strThe t k _ ht] at hor
+          simp only [Bool.and_eq_true, Bool.false_eq_true, or_false] at hor
+          obtain ⟨htk, hidx⟩ := hor
           obtain ⟨nm, hnm⟩ := Option.isSome_iff_exists.mp hidx
-          have hlow : ∃ ce s' ci, lowerExpr c x s0 = .ok (ce, s') ∧ lowerInt k s' = .ok (ci, s1) ∧ code = ce ++ ci ++ [.op2 0x5c t.code] := by
-            rw [lowerExpr, lowerArgs, lowerArgs] at h
-            simp only [M_bind_ok, M_pure_ok, Prod.mk.injEq] at h
-            obtain ⟨ca, s', ⟨ce, s'', he, cs, s3, ⟨rfl, rfl⟩, rfl, rfl⟩, ci, s4, hi, rfl, rfl⟩ := h
-            exact ⟨ce, _, ci, he, hi, by simp⟩
-          obtain ⟨ce, s', ci, he, hi, rfl⟩ := hlow
-          obtain ⟨hext1, hop1, hrun1⟩ := stack_lemma x hfe c s0 s' ce he
-          obtain ⟨hext2, hop2, hrun2⟩ := lowerInt_ok k s' s1 ci hi
-          refine ⟨hext1.trans hext2, ?_, ?_⟩
-          · intro i hi
-            rcases List.mem_append.mp hi with hi | hi
-            · rcases List.mem_append.mp hi with hi | hi
-              · exact hop1 i hi
-              · exact hop2 i hi
-            · simp only [List.mem_singleton] at hi; subst hi; simp [Instr.opc]
+          refine ⟨hext1.trans hext2, hops, ?_⟩
           intro sF ctx hF hrel G hG a st hb hgv
           obtain ⟨n, gv1, hemb, hgv1, hr1⟩ := hrun1 sF ctx (hext2.trans hF) hrel G (by simpa [Expr.vars, Expr.varsList] using hG) a st hb hgv
           obtain ⟨i, rfl, hex⟩ := hrun2 c sF ctx hF hrel ((a + codeSize ce : Nat) : Int)
@@ -1159,7 +1386,7 @@ theorem stack_lemma : ∀ (e : Expr), FragE e = true → ∀ (c : Spec.Ctx) (s0 
             ((a + codeSize ce : Nat) : Int) n nm hname st.stack rfl
           refine ⟨.propAcc ((a + codeSize (ce ++ [i]) : Nat) : Int) (.leaf cls nm ((a + codeSize (ce ++ [i]) : Nat) : Int))
             (nameOrUnknown tb k) false, gv1, ?_, hgv1, ?_⟩
-          · simp only [EmbH]; exact ⟨_, _, cls, tb, w, nm, ht, hnm, rfl⟩
+          · simp only [EmbH]; exact Or.inl ⟨_, _, cls, tb, w, nm, ht, hnm, rfl⟩
           · rw [runIs_append, runIs_append, hr1]
             simp only [Except.bind]
             rw [runIs_single, hex]
@@ -1257,7 +1484,98 @@ theorem stack_lemma : ∀ (e : Expr), FragE e = true → ∀ (c : Spec.Ctx) (s0 
     rw [runIs_append, hr1]
     simp only [Except.bind]
     rw [runIs_single, exec_oprop ctx i v hnm _ _ n st.stack rfl]
-  | .chunk _ _ _ _, hf, _, _, _, _, _ => by simp [FragE] at hf
+  | .chunk k a b d, hf, c, s0, s1, code, h => by
+    simp only [FragE, Bool.and_eq_true, Bool.not_eq_true'] at hf
+    obtain ⟨⟨⟨⟨hfa, hza⟩, hfb⟩, hfd⟩, hnm⟩ := hf
+    have hlow : ∃ ca s' cb s'' cd, lowerExpr c a s0 = .ok (ca, s') ∧ lowerExpr c b s' = .ok (cb, s'') ∧ lowerExpr c d s'' = .ok (cd, s1) ∧
+        code = slotCode [(k.rank, ca, cb)] ++ cd ++ [.op1 0x17] := by
+      rw [lowerExpr] at h
+      simp only [M_bind_ok] at h
+      obtain ⟨ca, s', ha, cb, s'', hb, res, s3, ht, h⟩ := h
+      have hnone : res = none ∧ s3 = s'' := by
+        cases d with
+        | chunk k' a' b' d' =>
+          simp only [notMerged, decide_eq_true_eq] at hnm
+          have hng : ¬ k'.rank > k.rank := by omega
+          rw [lowerChunkTail] at ht
+          simp only [hng, if_false, M_pure_ok, Prod.mk.injEq] at ht
+          exact ⟨by simpa [eq_comm] using ht.1, by simpa [eq_comm] using ht.2⟩
+        | _ =>
+          rw [lowerChunkTail] at ht
+          · simp only [M_pure_ok, Prod.mk.injEq] at ht
+            exact ⟨by simpa [eq_comm] using ht.1, by simpa [eq_comm] using ht.2⟩
+          all_goals (intros; contradiction)
+      obtain ⟨rfl, rfl⟩ := hnone
+      simp only [M_bind_ok, M_pure_ok, Prod.mk.injEq] at h
+      obtain ⟨cd, s4, hd, rfl, rfl⟩ := h
+      exact ⟨ca, s', cb, s3, cd, ha, hb, hd, rfl⟩
+    obtain ⟨ca, s', cb, s'', cd, ha, hb, hd, rfl⟩ := hlow
+    obtain ⟨hexta, hopa, hruna⟩ := stack_lemma a hfa c s0 s' ca ha
+    obtain ⟨hextb, hopb, hrunb⟩ := stack_lemma b hfb c s' s'' cb hb
+    obtain ⟨hextd, hopd, hrund⟩ := stack_lemma d hfd c s'' s1 cd hd
+    rw [slotCode_single]
+    refine ⟨(hexta.trans hextb).trans hextd, ?_, ?_⟩
+    · intro i hi
+      simp only [List.mem_append, List.mem_replicate, List.mem_singleton] at hi
+      rcases hi with (((⟨_, rfl⟩ | hi | hi) | ⟨_, rfl⟩) | hi) | rfl
+      · simp [Instr.opc]
+      · exact hopa i hi
+      · exact hopb i hi
+      · simp [Instr.opc]
+      · exact hopd i hi
+      · simp [Instr.opc]
+    intro sF ctx hF hrel G hG ad st hb' hgv
+    have hG3 : ∀ g ∈ a.vars .glob ++ b.vars .glob ++ d.vars .glob, g ∈ G := by simpa [Expr.vars] using hG
+    have hGa : ∀ g ∈ a.vars .glob, g ∈ G := fun g hg => hG3 g (by simp [hg])
+    have hGb : ∀ g ∈ b.vars .glob, g ∈ G := fun g hg => hG3 g (by simp [hg])
+    have hGd : ∀ g ∈ d.vars .glob, g ∈ G := fun g hg => hG3 g (by simp [hg])
+    -- the run: zeros, a, b, zeros, d, slice
+    let n1 := 2 * (k.rank - 1)
+    let n2 := 2 * (4 - k.rank)
+    have r0 := run_zeros ctx n1 ad st
+    obtain ⟨na, gv1, hemba, hgv1, hr1⟩ := hruna sF ctx ((hextb.trans hextd).trans hF) hrel G hGa (ad + n1)
+      { st with stack := zs ad n1 ++ st.stack } hb' hgv
+    obtain ⟨nb, gv2, hembb, hgv2, hr2⟩ := hrunb sF ctx (hextd.trans hF) hrel G hGb (ad + n1 + codeSize ca)
+      { st with stack := na :: (zs ad n1 ++ st.stack), gvars := gv1 } hb' hgv1.1
+    have r3 := run_zeros ctx n2 (ad + n1 + codeSize ca + codeSize cb) { st with stack := nb :: na :: (zs ad n1 ++ st.stack), gvars := gv2 }
+    obtain ⟨nd, gv3, hembd, hgv3, hr4⟩ := hrund sF ctx hF hrel G hGd (ad + n1 + codeSize ca + codeSize cb + n2)
+      { st with stack := zs (ad + n1 + codeSize ca + codeSize cb) n2 ++ (nb :: na :: (zs ad n1 ++ st.stack)), gvars := gv2 } hb' hgv2.1
+    obtain ⟨sn, hsn, hsz⟩ := embH_name_zero c.handlers a na hfa hemba
+    obtain ⟨en, hen, hez⟩ := embH_name_zero c.handlers b nb hfb hembb
+    have hsn0 : sn ≠ .s (S "0") := fun e => by rw [hsz.mp e] at hza; cases hza
+    have hrun : runIs ctx ad (List.replicate n1 (Instr.op1 0x03) ++ (ca ++ cb) ++ List.replicate n2 (Instr.op1 0x03) ++ cd) st
+        = .ok { st with stack := nd :: (zs (ad + n1 + codeSize ca + codeSize cb) n2 ++ (nb :: na :: (zs ad n1 ++ st.stack))), gvars := gv3 } := by
+      rw [runIs_append, runIs_append, runIs_append, r0]
+      simp only [Except.bind]
+      rw [codeSize_zeros, runIs_append, hr1]
+      simp only [Except.bind]
+      rw [hr2]
+      simp only [Except.bind, codeSize_append, codeSize_zeros]
+      have e1 : ad + (n1 + (codeSize ca + codeSize cb)) = ad + n1 + codeSize ca + codeSize cb := by omega
+      have e2 : ad + (n1 + (codeSize ca + codeSize cb) + n2) = ad + n1 + codeSize ca + codeSize cb + n2 := by omega
+      rw [e1, r3]
+      simp only [e2, hr4]
+    have hfinal : ∃ p0 p1 p2 p3 p4 p5, zs (ad + n1 + codeSize ca + codeSize cb) n2 ++ (nb :: na :: (zs ad n1 ++ st.stack))
+        = slotStack k na nb p0 p1 p2 p3 p4 p5 ++ st.stack := by
+      cases k <;> simp only [n1, n2, ChunkKind.rank, zs, slotStack, List.nil_append, List.cons_append, List.append_assoc] <;>
+        exact ⟨_, _, _, _, _, _, rfl⟩
+    obtain ⟨p0, p1, p2, p3, p4, p5, hstk⟩ := hfinal
+    let pc := ad + codeSize (List.replicate n1 (Instr.op1 0x03) ++ (ca ++ cb) ++ List.replicate n2 (Instr.op1 0x03) ++ cd)
+    have hex := exec_strop ctx k na nb nd sn en hsn hsn0 hen p0 p1 p2 p3 p4 p5 ((pc : Nat) : Int)
+      { st with stack := nd :: (zs (ad + n1 + codeSize ca + codeSize cb) n2 ++ (nb :: na :: (zs ad n1 ++ st.stack))), gvars := gv3 } st.stack
+      (by rw [hstk])
+    refine ⟨.strOp k.tag.toList ((pc : Nat) : Int) na (if en ≠ .s (S "0") then nb else .none) nd, gv3, ?_, (hgv1.trans hgv2).trans hgv3, ?_⟩
+    · refine ⟨_, na, _, nd, rfl, hemba, ?_, hembd⟩
+      cases hzb : isZero b with
+      | true => left; exact ⟨rfl, by rw [if_neg (by rw [hez.mpr hzb]; simp)]⟩
+      | false =>
+        right
+        have : en ≠ .s (S "0") := fun e => by rw [hez.mp e] at hzb; cases hzb
+        exact ⟨rfl, by rw [if_pos this]; exact hembb⟩
+    · rw [runIs_append, hrun]
+      simp only [Except.bind]
+      rw [runIs_single]
+      exact hex
 /-- argument lists: every argument is pushed, first argument deepest -/
 theorem args_lemma : ∀ (as : List Expr), FragL as = true → ∀ (c : Spec.Ctx) (s0 s1 : St) (code : List Instr),
     lowerArgs c as s0 = .ok (code, s1) →
@@ -1604,7 +1922,8 @@ theorem stmt_lemma (s : Stmt) (hf : FragS s = true) (c : Spec.Ctx) (hT : c.inTel
           rw [runIs_single, exec_setprop ctx i n hnm (hP n (by simp [Stmt.vars, Expr.vars])) _ { st with stack := nv :: st.stack, gvars := gv1 } nv st.stack rfl]
       all_goals (intros; contradiction)
     | the t k as =>
-      simp only [FragLv] at hlv
+      simp only [FragLv, Bool.and_eq_true] at hlv
+      obtain ⟨hlv, hlvt⟩ := hlv
       have hlow : ∃ ca s' cv s'' ci, lowerArgs c as s0 = .ok (ca, s') ∧ lowerExpr c v s' = .ok (cv, s'') ∧ lowerInt k s'' = .ok (ci, s1) ∧
           cs = [.code (ca ++ cv ++ ci ++ [.op2 0x5d t.code])] := by
         rw [lowerStmt] at h
@@ -1672,14 +1991,15 @@ theorem stmt_lemma (s : Stmt) (hf : FragS s = true) (c : Spec.Ctx) (hT : c.inTel
         cases xs with
         | cons y ys => cases t <;> simp [FragE] at hlv
         | nil =>
-          simp only [FragE, Bool.and_eq_true] at hlv
-          obtain ⟨⟨htk, hidx⟩, hfe⟩ := hlv
+          simp only [FragE, Bool.and_eq_true, Bool.or_eq_true] at hlv
+          obtain ⟨hor, hfe⟩ := hlv
           cases ht : theTbl t with
-          | none => rw [ht] at htk; simp at htk
+          | none => rw [ht] at hlvt; simp at hlvt
           | some tv =>
             obtain ⟨cls, tb, w⟩ := tv
-            rw [ht] at htk
-            simp only at htk
+            rw [ht, theTbl_strThe t k _ ht] at hor
+            simp only [Bool.and_eq_true, Bool.false_eq_true, or_false] at hor
+            obtain ⟨htk, hidx⟩ := hor
             obtain ⟨nm, hnm⟩ := Option.isSome_iff_exists.mp hidx
             have hca : lowerExpr c x s0 = .ok (ca, s') := by
               rw [lowerArgs, lowerArgs] at ha
@@ -1711,7 +2031,7 @@ theorem stmt_lemma (s : Stmt) (hf : FragS s = true) (c : Spec.Ctx) (hT : c.inTel
             refine ⟨.stmt ((a + codeSize (ca ++ cv ++ [i]) : Nat) : Int) (.binary (S "assign") ((a + codeSize (ca ++ cv ++ [i]) : Nat) : Int)
                 (.propAcc ((a + codeSize (ca ++ cv ++ [i]) : Nat) : Int) (.leaf cls nm ((a + codeSize (ca ++ cv ++ [i]) : Nat) : Int)) (nameOrUnknown tb k) false) nv),
               gv1, ⟨_, _, _, nv, rfl, ?_, hemb⟩, PlainStmt.bin _ _ _ _ _, stmtIn_last a (ca ++ cv ++ [i]) _ _, hgv0.trans hgv1, ?_⟩
-            · simp only [EmbLv, Emb]; exact ⟨_, _, cls, tb, w, nm, ht, hnm, rfl⟩
+            · simp only [EmbLv, Emb]; exact Or.inl ⟨_, _, cls, tb, w, nm, ht, hnm, rfl⟩
             · rw [runIs_append, runIs_append, runIs_append, hr0]
               simp only [Except.bind]
               rw [hr1]
